@@ -65,11 +65,15 @@ pub fn c20(m: &mut Mon, w: &mut World, idx: usize) {
         let d = format!("peer {peer} eid {}: re-execution on identical inputs differs in {}", w.runs[idx].eid, what.join(" ; "));
         // classify: only the message differs, and only in printed memory addresses
         let only_msg = ["code", "data", "next", "reqs", "panic"].iter().all(|k| a[*k] == b[*k]);
+        // data whose damaged store entry is also the one the trace refers to: the CID-store error (8) or the trace-CID-
+        // not-found error (9) is reported, whichever check meets its entry first
+        let verification_codes = |v: &serde_json::Value| matches!(v["code"].as_i64(), Some(8) | Some(9));
+        let only_which_verification_error = ["data", "next", "reqs", "panic"].iter().all(|k| a[*k] == b[*k]) && verification_codes(&a) && verification_codes(&b);
         let masked_equal = crate::monitors::mask_addresses(a["msg"].as_str().unwrap_or("")) == crate::monitors::mask_addresses(b["msg"].as_str().unwrap_or(""));
         let both_cid_store = a["code"].as_i64() == Some(crate::monitors::CID_STORE_VERIFICATION_CODE);
         let tag = if only_msg && masked_equal {
             "message-contains-memory-addresses"
-        } else if only_msg && both_cid_store {
+        } else if (only_msg && both_cid_store) || only_which_verification_error {
             "which-cid-store-error-is-reported"
         } else {
             "reexecution-differs"
